@@ -86,6 +86,10 @@ def _assignment(draw, spec):
         view = draw(st.sampled_from(["type", "edge", "select_edges"]))
         if view == "type":
             targets = ids
+        elif view == "select_edges":
+            # a view may hold synapses of other types too: they do not own the key and must stay untouched
+            others = [i for i in range(len(edges)) if i not in ids]
+            targets = sorted(draw(st.sets(st.sampled_from(ids), min_size=1)) | (draw(st.sets(st.sampled_from(others))) if others else set()))
         else:
             targets = sorted(draw(st.sets(st.sampled_from(ids), min_size=1)))
         a = {"on": "edges", "view": view, "key": key, "targets": targets, "type": t}
@@ -189,6 +193,17 @@ def the_view(m, spec, a):
     raise ValueError(v)
 
 
+def group_view(m, spec, a, g, N):
+    """View used by the set / data_set routes for one sharing group: the group's rows plus the rows of the
+    drawn view that do not own the key (other synapse types, compartments without the channel)."""
+    own = {x for grp in _groups_for(spec, a) for x in grp}
+    extra = [x for x in a["targets"] if x not in own]
+    if a["on"] == "edges":
+        return m.select(edges=sorted(set(int(i) for i in g) | set(int(i) for i in extra)))
+    rows = sorted(set(g) | set(extra))
+    return gn.view_of(m, rows) if N > 1 else m
+
+
 def arrays(m, params=None, param_state=None, dt=0.025):
     """All parameter and state arrays the simulation uses."""
     from jaxley.utils.cell_utils import params_to_pstate
@@ -289,8 +304,7 @@ def judge(spec, tier="quick"):
                 the_view(m, spec, a).set(a["key"], float(a["vals"][0]))
                 continue
             for g, val in zip(groups, a["vals"]):
-                v = m.select(edges=[int(i) for i in g]) if a["on"] == "edges" else (gn.view_of(m, g) if N > 1 else m)
-                v.set(a["key"], float(val))
+                group_view(m, spec, a, g, N).set(a["key"], float(val))
         return m
 
     mA, err = core.call(route_set)
@@ -308,8 +322,7 @@ def judge(spec, tier="quick"):
         ps = None
         for a in spec["assignments"]:
             for g, val in zip(_groups_for(spec, a), a["vals"]):
-                v = m.select(edges=[int(i) for i in g]) if a["on"] == "edges" else (gn.view_of(m, g) if N > 1 else m)
-                ps = v.data_set(a["key"], float(val), ps)
+                ps = group_view(m, spec, a, g, N).data_set(a["key"], float(val), ps)
         return m, ps
 
     res, err = core.call(route_data_set)
